@@ -102,6 +102,18 @@ def main():
         from fontTools.otlLib.optimize.gpos import COMPRESSION_LEVEL
         known = {COMPRESSION_LEVEL.name: COMPRESSION_LEVEL}
         kw["ftConfig"] = {known.get(k, k): v for k, v in kw["ftConfig"].items()}
+    objs = case.get("opts_objects") or {}
+    if objs:
+        # option values that are OBJECTS (writer / filter instances), created once and handed to
+        # every call of this interpreter: nothing a call leaves in them may show in the next one
+        import ufo2ft.featureWriters as W
+        import ufo2ft.filters as F
+        if objs.get("featureWriters"):
+            kw["featureWriters"] = [getattr(W, d["class"])(**(d.get("options") or {}))
+                                    for d in objs["featureWriters"]]
+        if objs.get("filters"):
+            kw["filters"] = [Ellipsis] + [getattr(F, d["class"])(**(d.get("options") or {}))
+                                          for d in objs["filters"]]
     other = case.get("other_func")
     results = {}
     tmp = tempfile.mkdtemp(prefix="vfc08_")
@@ -116,7 +128,8 @@ def main():
                     if other:
                         src2 = build(case, lib, False, tmp)
                         try:
-                            compile_(other, src2 if other_takes(other, src2) else _static_source(src2), {})
+                            compile_(other, src2 if other_takes(other, src2) else _static_source(src2),
+                                     {k: v for k, v in kw.items() if k in ("featureWriters", "filters")})
                         except Exception:  # noqa: BLE001
                             results[tag + "/other_failed"] = traceback.format_exc()[-300:]
                         results[tag + "/after_other"] = compile_(func, src2, dict(kw))
